@@ -919,6 +919,19 @@ func runLengths(ctx *core.Ctx, bcases []genCase) error {
 		add(ser.RandomBody(rng, true))
 		nb++
 	}
+	// long bodies of every length of a 1024-byte period whose extent has to be
+	// recovered (no /Length, a wrong one): the end of the data and the keyword
+	// fall on every position relative to the scanner's reads
+	for l := 940; l < 940+ctx.Pick(1030, 2060); l++ {
+		body := bytes.Repeat([]byte{reg[l%len(reg)]}, l)
+		body[l/2] = '\n'
+		mode, delta := ser.LenMissing, 0
+		if l%3 == 0 {
+			mode, delta = ser.LenWrong, 40+l%50
+		}
+		cases = append(cases, lenCase{Kind: "len", Body: body, Mode: int(mode), Delta: delta, RSeed: rng.Int63()})
+		nb++
+	}
 	recs := make([]lenRecord, len(cases))
 	var mu sync.Mutex
 	var first error
